@@ -45,31 +45,52 @@ def _section(c, sec):
     types = {}
     pbk = {}
     half = max(1, (n + 1) // 2)
+    import datetime as _dt
+    kt = c.get("keytype", "str")
+
+    def key(prefix, g):
+        # the value of a grouping column for group g (1, 2, 3): a string, an integer, a date, or null for group 1
+        if kt == "int":
+            return 100 + g
+        if kt == "date":
+            return _dt.date(2024, 1, g)
+        if kt == "null" and g == 1:
+            return None
+        return "%s%d" % (prefix, g)
+
+    def names(cols):
+        # how the caller spells page_by / subline_by / group_by
+        sq = c.get("seq", "list")
+        return tuple(cols) if sq == "tuple" else (cols[0] if sq == "str" and len(cols) == 1 else list(cols))
     if strat in ("pageby", "pageby_np_col", "pageby_np_first", "subpb"):
-        data["PB"] = ["grp%d" % (1 if r < half else 2) for r in range(n)]
-        pbk["page_by"] = ["PB"]
+        data["PB"] = [key("grp", 1 if r < half else 2) for r in range(n)]
+        pbk["page_by"] = names(["PB"])
         if strat == "pageby_np_col":
             pbk.update(new_page=True, pageby_row="column")
         elif strat == "pageby_np_first":
             pbk.update(new_page=True, pageby_row="first_row")
     if strat in ("subline", "subpb"):
-        data["SB"] = ["sub%d" % (1 if r < half else 2) for r in range(n)]
-        pbk["subline_by"] = ["SB"]
+        data["SB"] = [key("sub", 1 if r < half else 2) for r in range(n)]
+        pbk["subline_by"] = names(["SB"])
     if strat == "groupby":
         if c["contig"]:
-            data["GB"] = ["g%d" % (1 if r < half else 2) for r in range(n)]
+            data["GB"] = [key("g", 1 if r < half else 2) for r in range(n)]
         else:
-            data["GB"] = ["g%d" % (1 if r % 2 == 0 else 2) for r in range(n)]
-        pbk["group_by"] = ["GB"]
+            data["GB"] = [key("g", 1 if r % 2 == 0 else 2) for r in range(n)]
+        pbk["group_by"] = names(["GB"])
         if c["kind"] == "null" and n >= 3:
             # hierarchical group_by with nulls in two different groups separated by a null-free group
             third = max(1, n // 3)
-            data["GB"] = ["g%d" % (1 if r < third else 2 if r < 2 * third else 3) for r in range(n)] if c["contig"] else data["GB"]
+            data["GB"] = [key("g", 1 if r < third else 2 if r < 2 * third else 3) for r in range(n)] if c["contig"] else data["GB"]
             data["GB2"] = [None if (r < third or r >= 2 * third) else "u" for r in range(n)]
             pbk["group_by"] = ["GB", "GB2"]
     for j in range(m):
         data["V%d" % j] = _cells(c["kind"], n, j, sec)
         types["V%d" % j] = {"int": pl.Int64, "float": pl.Float64}.get(c["kind"], pl.Utf8)
+    ktypes = {"int": pl.Int64, "date": pl.Date}
+    for gcol in ("PB", "SB", "GB"):
+        if gcol in data and kt in ktypes:
+            types[gcol] = ktypes[kt]
     schema = {k: types.get(k, pl.Utf8) for k in data}
     df = pl.DataFrame(data, schema=schema)
     ncols = len(data)
